@@ -199,16 +199,17 @@ theorem Dir.sendCloseA {c : PC} {S R : List Bytes} (d : Dir x j c S R) :
 
 /-! ### The silent actions that change the outbound queue, the script or the number of objects -/
 
-theorem Dir.enqA {c : PC} {S R : List Bytes} (d : Dir x j c S R) (m : Msg) (hc : c.a.outClosed = false)
+theorem Dir.enqA {c : PC} {v : View} {S R : List Bytes} (d : Dir x j c S R) (m : Msg) (e1 : v.nobj = c.a.nobj)
+    (e2 : v.cnt = c.a.cnt) (e3 : v.outq = c.a.outq ++ [m]) (e4 : v.outClosed = c.a.outClosed) (hc : c.a.outClosed = false)
     (h1 : isConn x m = false) (h2 : isAck x m = true ∨ isPush x m = true → 0 < c.a.nobj) :
-    Dir x j { c with a := { c.a with outq := c.a.outq ++ [m] }, ab := if c.abOpen then c.ab ++ [] else c.ab }
-      (S ++ pX x []) R := by
-  refine d.silentAct (fun h => h) ?_ ?_
-  · refine pot_back c c.a.cnt _ (Nat.le_refl _) (fun hq => ?_)
+    Dir x j { c with a := v, ab := if c.abOpen then c.ab ++ [] else c.ab } (S ++ pX x []) R := by
+  refine d.silentAct (fun h => by rw [← e1]; exact h) ?_ ?_
+  · rw [e2, e3]
+    refine pot_back c c.a.cnt _ (Nat.le_refl _) (fun hq => ?_)
     rw [hasConn_append, hasConn_single, h1, Bool.or_false] at hq
     exact hq
-  · rintro q hq ⟨g, ha⟩
-    dsimp only
+  · rw [e1, e3, e4]
+    rintro q hq ⟨g, ha⟩
     rw [PC.live] at g ha
     by_cases hab : c.abOpen = true
     · rw [if_pos hab] at g ha ⊢
@@ -240,7 +241,7 @@ theorem Dir.drawA {c : PC} {S R : List Bytes} (hc : CoreS ownA ownB (sm x c)) (d
 
 theorem Dir.connNewA {c : PC} {S R : List Bytes} (d : Dir x j c S R) (r : List WsIn) (n : Nat) (cj : Bool) :
     Dir x j { c with a := { c.a with inbox := r, slot := some (.established c.a.len), len := c.a.len + 1,
-                                     nobj := c.a.nobj + 1, canJ := cj,
+                                     nobj := c.a.nobj + 1, canJ := cj, nw := c.a.nw + 1, rxJ := c.a.rxJ || cj,
                                      outq := if c.a.outClosed then c.a.outq else c.a.outq ++ [.frame (.acknowledge x n)] },
                      ab := if c.abOpen then c.ab ++ [] else c.ab } (S ++ pX x []) R := by
   refine d.silentAct (fun h => absurd h (Nat.succ_ne_zero _)) ?_ ?_
@@ -270,7 +271,7 @@ theorem Dir.connNewA {c : PC} {S R : List Bytes} (d : Dir x j c S R) (r : List W
 theorem Dir.ackNewA (hex : ¬(ownA ∧ ownB)) {c : PC} {S R : List Bytes} (hc : CoreS ownA ownB (sm x c)) (d : Dir x j c S R)
     (r : List WsIn) (q : Nat) (cj : Bool) (hs : c.a.slot = some (.requested q)) :
     Dir x j { c with a := { c.a with inbox := r, slot := some (.established c.a.len), len := c.a.len + 1,
-                                     nobj := c.a.nobj + 1, canJ := cj },
+                                     nobj := c.a.nobj + 1, canJ := cj, nw := c.a.nw + 1, rxJ := c.a.rxJ || cj },
                      ab := if c.abOpen then c.ab ++ [] else c.ab } (S ++ pX x []) R := by
   refine d.silentAct (fun h => absurd h (Nat.succ_ne_zero _)) (fun h => h) ?_
   intro q' hq
@@ -300,23 +301,37 @@ theorem Dir.clearOutqA {c : PC} {S R : List Bytes} (d : Dir x j c S R) :
 /-! ### Every small step of the left side -/
 
 theorem Dir.stepA (hex : ¬(ownA ∧ ownB)) {jA : Nat} {c c' : PC} {S R : List Bytes} {ws : List Msg} {acc : List Bytes}
-    (hc : CoreS ownA ownB (sm x c)) (hw : Wires c) (d : Dir x j c S R) (st : CStepL x jA c c' ws acc)
+    {xl : List XL} (hc : CoreS ownA ownB (sm x c)) (hw : Wires c) (d : Dir x j c S R) (st : CStepL x jA c c' ws acc xl)
     (hn : c'.a.rngNil = false) : Dir x j c' (S ++ pX x ws) R := by
   have _ := hw  -- not needed for the sender's own steps
   cases st with
-  | act v ws acc h =>
+  | act v ws acc xl h =>
     cases h with
     | emit m r h => exact d.emitA hc m r h
     | sendClose => exact d.sendCloseA
-    | enq m hc' h1 h2 => exact d.enqA m hc' h1 h2
+    | enq m hc' h1 h3 h4 h5 h2 =>
+      refine d.enqA m rfl rfl rfl rfl hc' h1 (fun h => ?_)
+      rcases h with h | h
+      · exact h2 h
+      · rw [h3] at h; cases h
+    | enqPush p hc' hw' =>
+      refine d.enqA _ rfl rfl rfl rfl hc' rfl (fun _ => ?_)
+      have := hc.l.wle
+      exact Nat.lt_of_lt_of_le hw' this
+    | enqFinS hc' hw' =>
+      exact d.enqA (.frame (.finish x)) rfl rfl rfl rfl hc' rfl (fun h => by rcases h with h | h <;> cases h)
+    | enqFinB hc' hb =>
+      exact d.enqA (.frame (.finish x)) rfl rfl rfl rfl hc' rfl (fun h => by rcases h with h | h <;> cases h)
     | rng k n hk hn' => exact d.rngA k n hk
-    | draw k n s m hk hn' hd hs ho hne hm1 hm2 =>
+    | draw k n s m hk hn' hd hs ho hk' =>
       refine d.drawA hc k n s m ?_
       rcases hd with hd | hd
       · exact hd
       · dsimp only at hn; rw [hd] at hn; cases hn
     | pop w r h hw' => exact d.sameAct rfl rfl rfl rfl
-    | degrade s k hs hk => exact d.sameAct rfl rfl rfl rfl
+    | popFin r s h hs => exact d.sameAct rfl rfl rfl rfl
+    | popBind m r b h hm hb => exact d.sameAct rfl rfl rfl rfl
+    | degrade s k w b rx hs hk hkeep hw' hb hr => exact d.sameAct rfl rfl rfl rfl
     | connRej m r h hm => exact d.sameAct rfl rfl rfl rfl
     | connNew m r n h hm hs => exact d.connNewA r n _
     | ackNew m r q h hm hs => exact d.ackNewA hex hc r q _ hs
